@@ -17,7 +17,7 @@ use std::time::{Duration, Instant};
 
 fn s(v: Option<i64>) -> String { match v { Some(x) => x.to_string(), None => "none".into() } }
 
-struct Cfg { universe: i64, len: usize, cap: usize, profile: u32, life: i64, variant: u32, inject: bool }
+struct Cfg { universe: i64, len: usize, cap: usize, profile: u32, life: i64, variant: u32, inject: bool, extreme: bool }
 
 fn cfg_of(h: u64) -> Cfg {
     Cfg {
@@ -28,6 +28,7 @@ fn cfg_of(h: u64) -> Cfg {
         life: [4i64, 12, 40, 100, 1000][((h / 7) % 5) as usize],
         variant: ((h / 2) % 2) as u32,
         inject: h % 4 == 1,
+        extreme: h % 8 == 3,
     }
 }
 
@@ -147,7 +148,8 @@ fn one_history(coll: &str, cfg: &Cfg, rng: &mut Rng, ops_done: &AtomicU64, rec: 
                 let mut kk = k; let mut guard = 0;
                 while live(&m, kk, t).is_some() && guard < 8 { kk = (kk + 1) % u; guard += 1; }
                 if live(&m, kk, t).is_some() { continue; }
-                let e = t + rng.range(0, cfg.life);
+                // (now and then the greatest expiration the clock type can express)
+                let e = if cfg.extreme && rng.chance(1, 40) { i32::MAX as i64 } else { t + rng.range(0, cfg.life) };
                 run!(Op::new("insert", &[kk, e, val, t]), None, None);
                 m.insert(kk, (e, val));
             } else if roll < p_fl {
@@ -233,6 +235,26 @@ fn one_history(coll: &str, cfg: &Cfg, rng: &mut Rng, ops_done: &AtomicU64, rec: 
                 }
             }
             if cfg.profile == 2 && rng.chance(1, 400) { run!(Op::new("clear", &[]), None, None); m.clear(); held.clear(); }
+        }
+    }
+    if expiring && cfg.extreme && struct_bad_at.is_none() {
+        // the last instant of the clock: nothing is live any more (an expiration must be *greater* than the time),
+        // so every answer is empty and no stored key may be handed to comparison code
+        t = i32::MAX as i64;
+        live_check(Some(t));
+        // (first the keys stamped with the greatest expiration, then a few others)
+        let mut ks: Vec<i64> = m.iter().filter(|(_, x)| x.0 == i32::MAX as i64).map(|(k, _)| *k).take(4).collect();
+        ks.extend(m.keys().cloned().take(4));
+        let rot = rng.below(3);
+        for kq in ks {
+            // (the three kinds in a rotating order, so that each of them is the first to fail in some history)
+            for j in 0..3 {
+                match (j + rot) % 3 {
+                    0 => { run!(Op::new("get", &[t, kq]), None, Some("none".to_string())); }
+                    1 => { run!(Op::new("fle", &[t, kq]), None, Some("none".to_string())); }
+                    _ => { run!(Op::new("fl", &[t, kq + 1]), None, Some("none".to_string())); }
+                }
+            }
         }
     }
     if expiring && live_check(None) { ops_done.fetch_add(n_ops, Ordering::Relaxed); return true; }
